@@ -55,6 +55,22 @@ def _resolve(target, cls, fields, label):
                         # the path was accepted only after resolve(p) was found relative to resolve(base)
                         return z3.BoolVal(any(e[0] == "call" and e[1] == "Path.resolve" for e in r.st.log))
                     c.ensures("symlink-rejection-resolves-before-accepting", post)
+
+                    def post_rel(r):
+                        # accepted => the fully resolved path lies under the fully resolved search
+                        # path, as a PATH relation (a string prefix would admit /templates_private)
+                        v = r.value
+                        if not (isinstance(v, (VU, VOpaque)) and z3.is_app(v.t) and v.t.decl().name() == "path_join"):
+                            return z3.BoolVal(False)
+                        base = v.t.arg(0)
+                        R = z3.Function("opq$Path.resolve", U, I, U)
+                        rel = z3.Function("path_is_relative_to", U, U, B)
+                        res_p = [R(e[2][0], z3.IntVal(e[3])) for e in r.st.log if e[0] == "call" and e[1] == "Path.resolve" and z3.eq(e[2][0], v.t)]
+                        res_b = [R(e[2][0], z3.IntVal(e[3])) for e in r.st.log if e[0] == "call" and e[1] == "Path.resolve" and z3.eq(e[2][0], base)]
+                        if not res_p or not res_b:
+                            return z3.BoolVal(False)
+                        return rel(res_p[-1], res_b[-1])
+                    c.ensures("accepted-only-if-the-resolved-path-is-relative-to-the-resolved-search-path", post_rel)
                 c.raises("TemplateNotFoundError")
                 c.assume_note("BOUNDED in the number of search paths only: 2 arbitrary base paths (the loop over search paths is unrolled)")
                 c.replay("code", code=REPLAY)
@@ -89,6 +105,52 @@ def _get_source(target, cls, fields, label):
 
 _get_source(PKG + ".get_source", PKG, lambda c: dict(paths="BASES", ext=c.str("ext"), encoding=c.str("encoding")), "PackageLoader.get_source")
 _get_source(PKG + ".get_source_async", PKG, lambda c: dict(paths="BASES", ext=c.str("ext"), encoding=c.str("encoding")), "PackageLoader.get_source_async")
+
+@structural("C22", "constructor-forwarding")
+def ctor_forwarding():
+    """loader constructors hand each option to the option of the same name: a keyword `k=<p>`
+    in a base-constructor call, where both k and p are parameters of the enclosing __init__,
+    has k == p (reject_symlinks must reach reject_symlinks)"""
+    import ast
+    from pyvc import flow, load
+    obs = []
+    n = 0
+    for m in [x for x in load.all_modules() if x.startswith("liquid.builtin.loaders")]:
+        mod = load.get_module(m)
+        for cname, cnode in mod.classes.items():
+            init = load._last_def(cnode.body, "__init__")
+            if init is None:
+                continue
+            params = {a.arg for a in init.args.args + init.args.kwonlyargs} - {"self"}
+            for call in flow.calls(init):
+                if not flow.dotted(call.func).endswith("__init__"):
+                    continue
+                n += 1
+                crossed = [f"{k.arg}={k.value.id}" for k in call.keywords if k.arg in params and isinstance(k.value, ast.Name) and k.value.id in params and k.value.id != k.arg]
+                obs.append(flow.ob(f"{cname}.__init__@{call.lineno - init.lineno}:options-are-forwarded-to-the-option-of-the-same-name", not crossed, str(crossed), replay_schema="code", replay_extra={"code": REPLAY_CTOR}))
+            stores = {}
+            for st_ in ast.walk(init):
+                if isinstance(st_, ast.Assign) and len(st_.targets) == 1 and isinstance(st_.targets[0], ast.Attribute) and flow.dotted(st_.targets[0].value) == "self" and isinstance(st_.value, ast.Name) and st_.value.id in params:
+                    stores[st_.targets[0].attr] = st_.value.id
+            crossed = [f"self.{k}={v}" for k, v in stores.items() if k in params and k != v]
+            if stores:
+                obs.append(flow.ob(f"{cname}.__init__:options-are-stored-under-their-own-name", not crossed, str(crossed), replay_schema="code", replay_extra={"code": REPLAY_CTOR}))
+    obs.append(flow.ob("base-constructor-calls-found", n >= 4, f"{n}"))
+    return obs
+
+
+REPLAY_CTOR = r'''
+def run(m):
+    from liquid import CachingFileSystemLoader
+    bad = []
+    for rs in (True, False):
+        for ar in (True, False):
+            l = CachingFileSystemLoader("/tmp", reject_symlinks=rs, auto_reload=ar)
+            if l.reject_symlinks is not rs or l.auto_reload is not ar:
+                bad.append((rs, ar, l.reject_symlinks, l.auto_reload))
+    return {"violated": bool(bad), "observed": bad}
+'''
+
 
 not_covered("C22", "the file system itself (symlink resolution is opaque; races between exists() and open())", "more than two search paths (the loop is uniform)",
             "FileSystemLoader._read/get_source read exactly resolve_path(name) (structural: the only path they open is the one returned by resolve_path)",
